@@ -391,6 +391,27 @@ fn main() {
             }
         }
     }
+    // wide shapes: more than 8 labels in total, with a clash at every position
+    let wide: Vec<String> = (0..9).map(|i| format!("w{}", i)).collect();
+    for nconst in 0..=2usize {
+        for nvar in [7usize, 8, 9] {
+            for clash in 0..=nvar {
+                for &c in &CTORS {
+                    if !(c.is_vec() || c == Ctor::Desc) {
+                        continue;
+                    }
+                    let mut spec = sp("m");
+                    spec.consts = (0..nconst).map(|i| (format!("k{}", i), "v".to_string())).collect();
+                    spec.vars = wide[..nvar].to_vec();
+                    if clash < nvar {
+                        // variable label `clash` repeats a constant label (or, without constants, another variable label)
+                        spec.vars[clash] = if nconst > 0 { format!("k{}", clash % nconst) } else { wide[(clash + 3) % nvar].clone() };
+                    }
+                    run.ctor(c, &spec, "wide");
+                }
+            }
+        }
+    }
     // (e) registry prefix and common labels
     for s in &s3 {
         run.registry(Some(s), &[], Ctor::Counter, &sp("m"), "prefix");
